@@ -27,6 +27,7 @@ import (
 	"github.com/thought-machine/please/src/cmap"
 	"github.com/thought-machine/please/src/fs"
 	"github.com/thought-machine/please/src/process"
+	"github.com/thought-machine/please/src/verifhook"
 )
 
 type ParseMode uint8
@@ -358,6 +359,7 @@ func (state *BuildState) addPendingParse(label, dependent BuildLabel, mode Parse
 
 // addPendingBuild adds a task for a pending build of a target.
 func (state *BuildState) addPendingBuild(target *BuildTarget) {
+	verifhook.Event("pending", target.Label.String(), "")
 	atomic.AddInt64(&state.progress.numPending, 1)
 	go func() {
 		defer func() {
@@ -409,6 +411,7 @@ func (state *BuildState) taskDone(wasSynthetic bool) {
 		atomic.AddInt64(&state.progress.numDone, 1)
 	}
 	if atomic.AddInt64(&state.progress.numPending, -1) <= 0 {
+		verifhook.Event("stop", "", "taskDone")
 		state.Stop()
 	}
 }
@@ -527,6 +530,7 @@ func (state *BuildState) LogParseResult(label BuildLabel, status BuildResultStat
 	if status == PackageParsed {
 		// We may have parse tasks waiting for this package to exist, check for them.
 		key := packageKey{Name: label.PackageName, Subrepo: label.Subrepo}
+		verifhook.Point("state.logParseResult")
 		if ch := state.progress.pendingPackages.Get(key); ch != nil {
 			close(ch) // This signals to anyone waiting that it's done.
 		}
@@ -611,6 +615,7 @@ func (state *BuildState) LogBuildError(label BuildLabel, status BuildResultStatu
 
 // logResult logs a build result directly to the state's queue.
 func (state *BuildState) logResult(result *BuildResult) {
+	verifhook.Event("result", result.Label.String(), fmt.Sprintf("%d|%s", result.Status, result.Description))
 	result.Time = time.Now()
 	state.progress.internalResults <- result
 	if result.Status.IsFailure() {
@@ -848,6 +853,7 @@ func (state *BuildState) SyncParsePackage(label BuildLabel) *Package {
 	if p := state.Graph.PackageByLabel(label); p != nil {
 		return p
 	}
+	verifhook.Point("state.syncParsePackage")
 	if ch, inserted := state.progress.pendingPackages.AddOrGet(label.packageKey(), func() chan struct{} {
 		return make(chan struct{})
 	}); !inserted {
@@ -876,6 +882,7 @@ func (state *BuildState) WaitForPackage(l, dependent BuildLabel, mode ParseMode)
 		return p
 	}
 	key := packageKey{Name: l.PackageName, Subrepo: l.Subrepo}
+	verifhook.Point("state.waitForPackage")
 
 	// If something has promised to parse it, wait for them to do so
 	if ch := state.progress.pendingPackages.Get(key); ch != nil {
@@ -891,6 +898,7 @@ func (state *BuildState) WaitForPackage(l, dependent BuildLabel, mode ParseMode)
 
 	// Otherwise queue the target for parse and recurse
 	state.addPendingParse(l, dependent, mode)
+	verifhook.Point("state.waitForPackage.queued")
 	state.progress.packageWaits.Set(key, make(chan struct{}))
 
 	return state.WaitForPackage(l, dependent, mode)
@@ -902,6 +910,7 @@ func (state *BuildState) WaitForBuiltTarget(l, dependent BuildLabel, mode ParseM
 	}
 
 	dependent.Name = "all" // Every target in this package depends on this one.
+	verifhook.Point("state.waitForBuiltTarget")
 	// okay, we need to register and wait for this guy.
 	if ch, inserted := state.progress.pendingTargets.AddOrGet(l, func() chan struct{} {
 		return make(chan struct{})
@@ -1146,6 +1155,8 @@ func (state *BuildState) queueResolvedTarget(target *BuildTarget, forceBuild boo
 	}
 
 	queueAsync := func(shouldBuild bool) {
+		verifhook.Event("activate", target.Label.String(), fmt.Sprint(shouldBuild))
+		verifhook.Point("state.queueAsync")
 		if target.IsTest() && state.NeedTests {
 			if state.TestSequentially {
 				state.addActiveTargets(2) // One for build & one for test
@@ -1177,6 +1188,7 @@ func (state *BuildState) queueResolvedTarget(target *BuildTarget, forceBuild boo
 // queueTarget enqueues a target's dependencies and the target itself once they are done.
 func (state *BuildState) queueTargetAsync(target *BuildTarget, forceBuild, building bool, mode ParseMode) {
 	defer state.taskDone(true)
+	verifhook.Point("state.queueTargetAsync.start")
 	for _, dep := range target.DeclaredDependencies() {
 		if err := state.queueTarget(dep, target.Label, forceBuild, mode); err != nil {
 			state.asyncError(dep, err)
@@ -1196,6 +1208,7 @@ func (state *BuildState) queueTargetAsync(target *BuildTarget, forceBuild, build
 		if building {
 			for _, t := range target.Dependencies() {
 				t.WaitForBuild(target.Label)
+				verifhook.Point("state.queueTargetAsync.depBuilt")
 				if t.State() >= DependencyFailed { // Either the target failed or its dependencies failed
 					// Give up and set the original target as dependency failed
 					target.SetState(DependencyFailed)
@@ -1206,6 +1219,7 @@ func (state *BuildState) queueTargetAsync(target *BuildTarget, forceBuild, build
 			}
 		}
 		if !called.Load() {
+			verifhook.Point("state.queueTargetAsync.ready")
 			// We are now ready to go, we have nothing to wait for.
 			if building && target.SyncUpdateState(Active, Pending) {
 				// If we're going to run the target, we need its runtime data to be done. This has to
